@@ -122,9 +122,11 @@ Fixpoint define_rules (c : cls) (l : list arule) (R : reg) : option reg :=
   end.
 
 (* ---- text normalisation done by the loaders ---- *)
-Definition is_space (c : cp) : bool :=          (* str.rstrip() over the ASCII white space *)
+Definition is_space (c : cp) : bool :=          (* str.rstrip(): exactly the code points with str.isspace() *)
   (N.eqb c 32 || N.eqb c 9 || N.eqb c 10 || N.eqb c 11 || N.eqb c 12 || N.eqb c 13 ||
-   N.eqb c 28 || N.eqb c 29 || N.eqb c 30 || N.eqb c 31)%bool.
+   N.eqb c 28 || N.eqb c 29 || N.eqb c 30 || N.eqb c 31 ||
+   N.eqb c 133 || N.eqb c 160 || N.eqb c 5760 || (N.leb 8192 c && N.leb c 8202) ||
+   N.eqb c 8232 || N.eqb c 8233 || N.eqb c 8239 || N.eqb c 8287 || N.eqb c 12288)%bool.
 Fixpoint rstrip (s : str) : str :=
   match s with
   | [] => []
